@@ -153,6 +153,11 @@ class ModInfo:
 
         def effectful(body: Sequence[ast.stmt]):
             for st in body:
+                if isinstance(st, ast.ClassDef) and (st.keywords or any(isinstance(b_, ast.Name) and b_.id in self._thunks and self._thunks[b_.id][0] == "class" for b_ in st.bases)):
+                    # a subclass of a class of this module (or one with class keywords): creating it may register it
+                    # somewhere (__init_subclass__)
+                    yield ("def", st)
+                    continue
                 if isinstance(st, (ast.FunctionDef, ast.AsyncFunctionDef, ast.ClassDef)):
                     for d in st.decorator_list:
                         dn = _dotted(d.func if isinstance(d, ast.Call) else d)
@@ -253,7 +258,9 @@ class ModInfo:
         if k == "def":
             return it.decorate(it.make_func(th[1], self, None, th[1].name), None, self)
         if k == "class":
-            return it.decorate_class(ClassV(th[1], self, th[1].name, None), th[1], self)
+            cv_ = ClassV(th[1], self, th[1].name, None)
+            it.class_created(cv_)
+            return it.decorate_class(cv_, th[1], self)
         if k == "assign":
             try:
                 v = it.eval(th[1], Env(None, {}), self)
@@ -409,8 +416,9 @@ class Interp:
                         f.doc_target = self.eval(d.args[0], Env(None, {}), mi)
                     except Unsupported:
                         f.doc_target = None
-            if short == "singledispatch":
+            if short in ("singledispatch", "singledispatchmethod"):
                 f.registry = []
+                f.dispatch_index = 1 if short == "singledispatchmethod" else 0  # type: ignore[attr-defined]
                 f.decorators.append(dn)
                 continue
             if short == "setter" and dn and "." in dn:
@@ -490,6 +498,12 @@ class Interp:
             short = dn.split(".")[-1] if dn else None
             if dn is not None and (dn in TRANSPARENT_DECORATORS or short in TRANSPARENT_DECORATORS or short in ("total_ordering", "final", "runtime_checkable", "unique", "verify")):
                 continue
+            try:
+                base_v = self.eval(d.func if isinstance(d, ast.Call) else d, Env(None, {}), mi)
+            except Unsupported:
+                base_v = None
+            if isinstance(base_v, ExtV) and base_v.name in ("dataclasses.dataclass", "functools.total_ordering", "typing.final", "typing.runtime_checkable", "enum.unique", "typing.no_type_check", "typing_extensions.final", "typing_extensions.runtime_checkable"):
+                continue  # the same transparent decorators under an import alias (with or without arguments)
             try:
                 dec = self.eval(d, Env(None, {}), mi)
                 if not (isinstance(dec, (FuncV, Bound, PartialV)) or (isinstance(dec, Obj) and isinstance(dec.cls, ClassV))):
@@ -642,12 +656,13 @@ class Interp:
             self.log("opaque-decorator", node, func=f)
             Interp.note_gap(f"{f.qualname} is wrapped by an unmodelled decorator {f.decorators}")
             return Unknown(f"{f.qualname} is wrapped by an unmodelled decorator {f.decorators}")
-        if f.registry and args and not getattr(f, "_dispatching", False):
-            # functools.singledispatch: the implementation registered for the class of the first argument;
-            # a class test that is decided only at run time gives a gated value
+        di_ = getattr(f, "dispatch_index", 0)
+        if f.registry and len(args) > di_ and not getattr(f, "_dispatching", False):
+            # functools.singledispatch(method): the implementation registered for the class of the first argument
+            # (after self for the method form); a class test that is decided only at run time gives a gated value
             cands = []
             for cls_, impl in reversed(f.registry):
-                r_ = BUILTINS["isinstance"].fn(self, [args[0], cls_], {}, node)
+                r_ = BUILTINS["isinstance"].fn(self, [args[di_], cls_], {}, node)
                 if r_ is False:
                     continue
                 if r_ is not True and (isinstance(r_, Gamma) or not _is_cond(r_)):
@@ -842,9 +857,16 @@ class Interp:
             return BOTTOM
         if self.is_dataclass(c):
             fields = []
-            for st in c.node.body:
-                if isinstance(st, ast.AnnAssign) and isinstance(st.target, ast.Name):
-                    fields.append((st.target.id, st.value))
+            chain_ = [c]
+            while True:
+                nb_ = [b for b in self.class_bases(chain_[-1]) if isinstance(b, ClassV) and self.is_dataclass(b)]
+                if not nb_ or len(chain_) > 8:
+                    break
+                chain_.append(nb_[0])
+            for k_ in reversed(chain_):  # fields of the base dataclasses first, a redefinition keeps its place
+                for st in k_.node.body:
+                    if isinstance(st, ast.AnnAssign) and isinstance(st.target, ast.Name) and "ClassVar" not in ast.unparse(st.annotation):
+                        fields = [(n_, d_) if n_ != st.target.id else (n_, st.value) for n_, d_ in fields] if any(n_ == st.target.id for n_, _ in fields) else fields + [(st.target.id, st.value)]
             obj = Obj(f"{c.module.name}.{c.qualname}", cls=c, open_attrs=False)
             names = [n for n, _ in fields]
             if len(args) > len(names):
@@ -905,6 +927,24 @@ class Interp:
             obj = Obj(qn, attrs=dict(bound), cls=c, term=term)
             self.log("new", node, cls=c, bound=bound, obj=obj)
             return obj
+        if any(isinstance(b, ExtV) and b.name.split(".")[-1] in ("dict", "Dict", "OrderedDict", "UserDict", "MutableMapping", "DefaultDict") for b in self._all_bases(c)) and not self.is_subclass_of_ext(c, "Enum"):
+            from .values import ClassDictV
+
+            dv = ClassDictV()
+            dv.cls = c
+            if init is not None:
+                if self.call_function(init, [dv, *args], kwargs, node) is BOTTOM:
+                    return BOTTOM
+            else:
+                if args and isinstance(args[0], dict):
+                    dv.update(args[0])
+                elif args:
+                    seq_ = self.concrete_iter(args[0])
+                    if seq_ is None:
+                        raise Unsupported("dict subclass built from a non-concrete iterable")
+                    dv.update({k_: v_ for k_, v_ in seq_})
+                dv.update(kwargs)
+            return dv
         if init is not None:
             obj = Obj(f"{c.module.name}.{c.qualname}", cls=c)
             r_ = self.call_function(init, [obj, *args], kwargs, node)
@@ -927,6 +967,10 @@ class Interp:
     def dunder(self, v: Any, name: str) -> Any:
         """The special method `name` of an instance of a repository class (bound), else None."""
         if isinstance(v, (Obj, NTuple)) and isinstance(v.cls, ClassV) and not (isinstance(v, Obj) and v.term is not None):
+            m = self.class_attr(v.cls, name)
+            if isinstance(m, FuncV):
+                return Bound(m, v)
+        if type(v).__name__ == "ClassDictV" and isinstance(v.cls, ClassV):
             m = self.class_attr(v.cls, name)
             if isinstance(m, FuncV):
                 return Bound(m, v)
@@ -960,10 +1004,12 @@ class Interp:
         """Look a method / class attribute up in a repository class and its repo bases."""
         if name in c.overrides:
             return c.overrides[name]
-        for st in c.node.body:
+        for st in reversed(c.node.body):  # the last binding of a name in a class body is the one that stays
             if isinstance(st, (ast.FunctionDef, ast.AsyncFunctionDef)) and st.name == name:
-                if any((_dotted(d) or "").endswith((".setter", ".deleter")) for d in st.decorator_list):
+                if any((_dotted(d) or "").endswith((".setter", ".deleter", ".register")) or (isinstance(d, ast.Call) and (_dotted(d.func) or "").endswith(".register")) for d in st.decorator_list):
                     continue
+                if any((_dotted(d) or "").split(".")[-1] in ("overload", "_overload") for d in st.decorator_list):
+                    continue  # typing.overload stubs carry no behaviour
                 return self.decorate(self.make_func(st, c.module, c.env, f"{c.qualname}.{name}", cls=c), c.env, c.module)
             if isinstance(st, ast.ClassDef) and st.name == name:
                 return ClassV(st, c.module, f"{c.qualname}.{name}", c.env)
@@ -979,6 +1025,117 @@ class Interp:
                 if r is not None:
                     return r
         return None
+
+    def mro(self, c: ClassV) -> List[Any]:
+        """C3 linearisation over the repository classes (external bases are kept as leaves)."""
+        def lin(k: Any, depth: int = 0) -> List[Any]:
+            if not isinstance(k, ClassV) or depth > 12:
+                return [k]
+            bases = self.class_bases(k)
+            seqs = [lin(b, depth + 1) for b in bases] + [list(bases)]
+            out: List[Any] = [k]
+            same = lambda a, b: (a is b) or (isinstance(a, ClassV) and isinstance(b, ClassV) and a.node is b.node) or (isinstance(a, ExtV) and isinstance(b, ExtV) and a.name == b.name)
+            while any(seqs):
+                seqs = [q for q in seqs if q]
+                for q in seqs:
+                    h = q[0]
+                    if not any(any(same(h, t) for t in o[1:]) for o in seqs):
+                        break
+                else:
+                    h = seqs[0][0]  # inconsistent hierarchy: fall back to the first head
+                out.append(h)
+                seqs = [[t for t in q if not same(t, h)] if same(q[0], h) or True else q for q in seqs]
+            return out
+
+        return lin(c)
+
+    def class_own_attr(self, c: ClassV, name: str) -> Any:
+        """A method / attribute defined in the body of `c` itself (no base-class lookup)."""
+        if name in c.overrides:
+            return c.overrides[name]
+        for st in reversed(c.node.body):
+            if isinstance(st, (ast.FunctionDef, ast.AsyncFunctionDef)) and st.name == name:
+                if any((_dotted(d) or "").endswith((".setter", ".deleter", ".register")) for d in st.decorator_list):
+                    continue
+                if any((_dotted(d) or "").split(".")[-1] in ("overload", "_overload") for d in st.decorator_list):
+                    continue
+                return self.decorate(self.make_func(st, c.module, c.env, f"{c.qualname}.{name}", cls=c), c.env, c.module)
+        return None
+
+    def _class_has_descriptor(self, c: ClassV, name: str) -> bool:
+        """Cheap syntactic pre-test: `name = <call>` in the body of the class or of a repository base."""
+        for k_ in [c] + [b for b in self._all_bases(c) if isinstance(b, ClassV)]:
+            for st in k_.node.body:
+                if isinstance(st, (ast.Assign, ast.AnnAssign)) and isinstance(getattr(st, "value", None), ast.Call):
+                    tg = st.targets if isinstance(st, ast.Assign) else [st.target]
+                    if any(isinstance(t, ast.Name) and t.id == name for t in tg):
+                        return True
+        return False
+
+    def class_created(self, c: ClassV) -> None:
+        """Effects of creating a class: __set_name__ of the descriptors in its body, then __init_subclass__ of the
+        nearest repository base that defines it (with the class keywords)."""
+        if c.overrides.get("__created__"):
+            return
+        c.overrides["__created__"] = True
+        try:
+            for st in c.node.body:
+                if isinstance(st, (ast.Assign, ast.AnnAssign)) and isinstance(getattr(st, "value", None), ast.Call):
+                    tg = st.targets if isinstance(st, ast.Assign) else [st.target]
+                    for t in tg:
+                        if isinstance(t, ast.Name):
+                            val = self.class_attr(c, t.id)
+                            if isinstance(val, Obj) and isinstance(val.cls, ClassV):
+                                sn = self.class_attr(val.cls, "__set_name__")
+                                if isinstance(sn, FuncV):
+                                    self.call_function(sn, [val, c, t.id], {}, st)
+            import copy as _copy
+
+            for st in c.node.body:
+                if isinstance(st, ast.FunctionDef) and any((_dotted(d) or "").split(".")[-1] == "singledispatchmethod" for d in st.decorator_list):
+                    gen_ = self.class_attr(c, st.name)
+                    if isinstance(gen_, FuncV):
+                        c.overrides[st.name] = gen_  # one function object (its registry persists)
+            for st in c.node.body:
+                if not isinstance(st, ast.FunctionDef):
+                    continue
+                for d in st.decorator_list:
+                    base_ = d.func if isinstance(d, ast.Call) else d
+                    if isinstance(base_, ast.Attribute) and base_.attr == "register" and isinstance(base_.value, ast.Name) and isinstance(c.overrides.get(base_.value.id), FuncV) and c.overrides[base_.value.id].registry is not None:
+                        gen_ = c.overrides[base_.value.id]
+                        bare = _copy.copy(st)
+                        bare.decorator_list = []
+                        impl = self.make_func(bare, c.module, c.env, f"{c.qualname}.{base_.value.id}.register", cls=c)
+                        if isinstance(d, ast.Call) and d.args:
+                            cls_ = self.eval(d.args[0], Env(c.env, {}), c.module)
+                        else:
+                            ps_ = st.args.posonlyargs + st.args.args
+                            ann = ps_[1].annotation if len(ps_) > 1 else None
+                            if ann is None:
+                                raise Unsupported("singledispatchmethod.register without a class")
+                            cls_ = self.eval(ann if not isinstance(ann, ast.Constant) or not isinstance(ann.value, str) else ast.parse(ann.value, mode="eval").body, Env(c.env, {}), c.module)
+                        gen_.registry.append((cls_, impl))
+            kws = {k.arg: self.eval(k.value, Env(c.env, {}), c.module) for k in c.node.keywords if k.arg and k.arg != "metaclass"}
+            hook = None
+            for b in self.class_bases(c):
+                if isinstance(b, ClassV):
+                    self.class_created(b)
+                    hook = hook or self.class_attr(b, "__init_subclass__")
+            if isinstance(hook, FuncV):
+                saved = self.cur_mod
+                self.cur_mod = c.module
+                try:
+                    self.call_function(hook, [c], kws, c.node)
+                finally:
+                    self.cur_mod = saved
+            elif kws:
+                Interp.note_gap(f"class keywords {sorted(kws)} of {c.qualname} without a repository __init_subclass__")
+            if any(k.arg == "metaclass" for k in c.node.keywords):
+                mv = self.eval(next(k.value for k in c.node.keywords if k.arg == "metaclass"), Env(c.env, {}), c.module)
+                if isinstance(mv, ClassV):
+                    Interp.note_gap(f"metaclass {mv.qualname} of {c.qualname} defined in the repository is not modelled")
+        except Unsupported as e:
+            Interp.note_gap(f"class creation effects of {c.qualname} not modelled ({e})")
 
     def _all_bases(self, c: ClassV, depth: int = 0) -> List[Any]:
         out: List[Any] = []
@@ -1875,6 +2032,11 @@ class Interp:
             return v
         if v is None:
             return False
+        if isinstance(v, NTuple) and v.cls is not None:
+            for dn_ in ("__bool__", "__len__"):
+                m = self.dunder(v, dn_)
+                if m is not None:
+                    return self._truth(self.call_function(m, [], {}, node), node)
         if isinstance(v, (int, str, tuple, list, dict, Shape, range, set, frozenset)):
             return bool(v)
         if isinstance(v, sp.Basic):
@@ -2392,6 +2554,14 @@ class Interp:
         if isinstance(v, Obj):
             if attr in v.dyn:
                 return v.dyn[attr]()
+            if v.cls is not None and not attr.startswith("__"):
+                # descriptor protocol: a class attribute that is an instance of a repository class with __get__
+                # (data descriptors -- those that also define __set__ -- win over the instance dictionary)
+                cand_ = self.class_attr(v.cls, attr) if self._class_has_descriptor(v.cls, attr) else None
+                if isinstance(cand_, Obj) and isinstance(cand_.cls, ClassV):
+                    g_ = self.class_attr(cand_.cls, "__get__")
+                    if isinstance(g_, FuncV) and (attr not in v.attrs or self.class_attr(cand_.cls, "__set__") is not None):
+                        return self.call_function(g_, [cand_, v, v.cls], {}, node)
             if attr in v.attrs:
                 return v.attrs[attr]
             if v.cls is not None:
@@ -2467,6 +2637,20 @@ class Interp:
             if attr == "numel":
                 return _Builtin("numel", lambda it, a, k, nd, s=v: num(s.numel()))
             raise Unsupported(f"Size.{attr}")
+        if type(v).__name__ == "ClassDictV" and isinstance(v.cls, ClassV):
+            if attr in v.attrs:
+                return v.attrs[attr]
+            r = self.class_attr(v.cls, attr)
+            if isinstance(r, FuncV):
+                if r.kind == "property":
+                    return self.call_function(r, [v], {}, node)
+                if r.kind == "staticmethod":
+                    return r
+                if r.kind == "classmethod":
+                    return Bound(r, v.cls)
+                return Bound(r, v)
+            if r is not None:
+                return r
         if isinstance(v, (dict, list, str, set)) and not hasattr(type(v), attr) and not hasattr(dict if isinstance(v, dict) else type(v), attr) and not (isinstance(v, list) and hasattr(_collections.deque, attr)) and not (isinstance(v, dict) and (hasattr(_collections.OrderedDict, attr) or hasattr(_collections.Counter, attr))) and not (isinstance(v, set) and hasattr(frozenset, attr)):
             # (a deque is modelled as a list, OrderedDict / Counter / defaultdict as dicts)
             self.log("raise", node, exc="AttributeError")
@@ -2874,12 +3058,18 @@ class Interp:
         ok2, clsv = env.lookup("__class__")
         cls = clsv if ok2 else (selfv.cls if isinstance(selfv, Obj) else None)
         if isinstance(cls, ClassV):
-            for b in self.class_bases(cls):
+            # cooperative super(): the classes that follow `cls` in the MRO of the *instance's* class (so that a
+            # mixin without bases still reaches the next class of the instance), each looked up in its own body
+            inst_cls = selfv.cls if isinstance(selfv, (Obj, NTuple)) and isinstance(getattr(selfv, "cls", None), ClassV) else (selfv if isinstance(selfv, ClassV) else cls)
+            mro = self.mro(inst_cls)
+            idx = next((i for i, k_ in enumerate(mro) if isinstance(k_, ClassV) and k_.node is cls.node), None)
+            rest = mro[idx + 1 :] if idx is not None else self.mro(cls)[1:]
+            for b in rest:
                 if isinstance(b, ClassV) and self.opaque(b):
                     self.log("super", n, method=meth, args=args, kwargs=kwargs, obj=selfv, base=b)
                     return None
                 if isinstance(b, ClassV):
-                    r = self.class_attr(b, meth)
+                    r = self.class_own_attr(b, meth)
                     if isinstance(r, FuncV):
                         e2 = dict(kwargs)
                         return self._call_super_func(r, b, selfv, args, e2, n)
@@ -3066,7 +3256,20 @@ def _dict_method(it: Interp, d: Dict[Any, Any], attr: str, a: List[Any], k: Dict
         return d.setdefault(a[0], a[1] if len(a) > 1 else None)
     if attr == "update":
         for x in a:
-            d.update(x)
+            if isinstance(x, (Obj, NTuple)) and isinstance(getattr(x, "cls", None), ClassV) and isinstance(it.class_attr(x.cls, "keys"), FuncV):
+                # mapping protocol: an object with keys() and __getitem__
+                ks = it.concrete_iter(it.call_function(it.getattr(x, "keys", None), [], {}, None))
+                if ks is None:
+                    raise Unsupported("dict.update from a mapping whose keys are not concrete")
+                for k_ in ks:
+                    d[k_] = it.getitem(x, k_, None)
+            elif isinstance(x, dict):
+                d.update(x)
+            else:
+                seq_ = it.concrete_iter(x)
+                if seq_ is None:
+                    raise Unsupported("dict.update from a non-concrete iterable")
+                d.update({p_[0]: p_[1] for p_ in seq_})
         d.update(k)
         return None
     if attr == "pop":
